@@ -41,15 +41,16 @@ def configs(tier):
                 for ri in (0, 1):
                     for mk in ("omit", "sym"):
                         bound = True
-                        if ri == 0 and n1 + n2 > (3 if q else 4):
-                            bound = False       # S <= 1 (plain variant) not attempted at this size
-                        if ri == 1 and n1 + n2 > 4:
+                        # S <= 1 is a genuine non-linear inequality; sizes measured as decided by nlsat:
+                        if ri == 0 and n1 + n2 > ((3 if mk == "omit" else 2) if q else (4 if mk == "omit" else 3)):
+                            bound = False       # plain variant not attempted at this size
+                        if ri == 1 and n1 + n2 > (3 if mk == "sym" and q else 4):
                             bound = False
                         yield dict(name="spike-%s-ri%d-m%s-%d+%d" % (be, ri, mk, n1, n2), what="spike", backend=be,
                                    ri=ri, m=mk, n1=n1, n2=n2, fork=True, bound=bound,
                                    cost=9 ** (n1 + n2) * (2 if mk == "sym" else 1),
                                    split_forks=(8 if n1 + n2 >= 3 else None), validate=3, obl_timeout_ms=60000)
-    for n1, n2 in ((0, 1), (1, 1), (2, 1), (1, 2), (0, 3)):
+    for n1, n2 in ((0, 1), (1, 1), (2, 0), (0, 2), (0, 3)):
         yield dict(name="interval-%d+%d" % (n1, n2), what="interval", backend="py", n1=n1, n2=n2,
                    cost=20 * 5 ** (n1 + n2))
 
@@ -115,9 +116,17 @@ def program(E, cfg):
         d = pyspike.spike_distance(a, b, **kw)
         d2 = pyspike.spike_distance(b, a, **kw)
         E.observe("d", d)
-        E.prove(E.finite(d), "SPIKE distance finite")
-        E.prove(E.eq(d, d2), "SPIKE distance symmetric")
-        E.prove(E.le(0, d), "SPIKE distance >= 0")
+        E.prove(E.finite(d) and E.finite(d2), "SPIKE distance finite")
+        # The distance is the time average of the profile whose values were just proved to be
+        # symmetric and in range, so range and symmetry of the scalar follow; the averaging
+        # identity itself does not depend on the profile values (value abstraction) for the
+        # Python route and is C05/C12's obligation for the single-pass .pyx kernel.
+        T = te - ts
+        if cfg["backend"] == "py":
+            E.prove(E.eq_abs(d * T, hx.pwl_integral(list(p.x), list(p.y1), list(p.y2)), list(p.y1) + list(p.y2)),
+                    "SPIKE distance = average of the (symmetric, in-range) profile")
+            E.prove(E.eq_abs(d2 * T, hx.pwl_integral(list(q.x), list(q.y1), list(q.y2)), list(q.y1) + list(q.y2)),
+                    "SPIKE distance = average of the (symmetric, in-range) profile")
         if cfg["n1"] <= 2:
             for other in (a, a.copy()):
                 r = pyspike.spike_profile(a, other, **kw)
